@@ -239,16 +239,19 @@ impl Harness {
             return;
         }
         self.leak_checks += 1;
+        self.fs.pause_trace(true);
         let mut lives = [0isize; 4];
         for k in 0..4 {
             self.fs.begin_op(op_id as usize, self.sub_seed(op_id), u64::MAX);
             let r = monitor::guarded(|| f());
             self.fs.end_op();
             if r.is_err() {
+                self.fs.pause_trace(false);
                 return; // crash monitors report on the first execution, not here
             }
             lives[k] = alloc::live_net();
         }
+        self.fs.pause_trace(false);
         let d1 = lives[2] - lives[1];
         let d2 = lives[3] - lives[2];
         if d1 > 0 && d2 > 0 && d1 == d2 {
